@@ -9,7 +9,7 @@ from typing import Dict, List, Optional
 import z3
 
 from . import interp as GI_
-from .interp import GI, GStruct, GPtr, GArray, GSlice, Program, Interp, GoUnsupported, GoPanic
+from .interp import GI, GStruct, GPtr, GArray, GSlice, Program, Interp, GoUnsupported, GoPanic, GoTypeError
 from ..pysym import engine as EN
 from ..pysym import loader
 from ..spec import layout as L
@@ -177,6 +177,9 @@ def run_encode(E: EN.Engine, prog: Program, pkg, msg: L.Message, label="encode")
     m = _fill(it, pkg, it.zero(pkg, ("name", tn)), msg, v)
     try:
         out = it.invoke(("method", GPtr(m), "Encode"), [])[0]
+    except GoTypeError as e:
+        E.oblige("%s/well-typed: %s" % (label, e), z3.BoolVal(False))
+        return
     except GoPanic:
         return
     n = L.nbytes(msg)
@@ -207,6 +210,9 @@ def run_decode(E: EN.Engine, prog: Program, pkg, msg: L.Message, label="decode",
     m = it.zero(pkg, ("name", tn))
     try:
         it.invoke(("method", GPtr(m), "Decode"), [s])
+    except GoTypeError as e:
+        E.oblige("%s/well-typed: %s" % (label, e), z3.BoolVal(False))
+        return
     except GoPanic:
         return
     out: list = []
